@@ -204,6 +204,11 @@ func runGuardedRules(p *Program, id string) ([]*Gen, []string) {
 								desc, ok = "return of "+valuePath(ret.Results[k]), true
 							}
 						}
+					} else if sf := strings.Fields(kv["site"]); len(sf) == 2 && sf[0] == "convert" {
+						// `convert PATTERN`: a type conversion (e.g. []byte(s)) of a value matching PATTERN
+						if cv, isCv := in.(*ssa.Convert); isCv && pathMatches(valuePath(cv.X), sf[1]) {
+							desc, ok = "conversion of "+valuePath(cv.X), true
+						}
 					} else if sf := strings.Fields(kv["site"]); len(sf) == 3 && sf[0] == "assign" {
 						// `assign NAME PATTERN`: an assignment to the local or named result NAME of a value matching PATTERN
 						if st, isSt := in.(*ssa.Store); isSt {
@@ -228,7 +233,44 @@ func runGuardedRules(p *Program, id string) ([]*Gen, []string) {
 					o := &Oblig{Name: fmt.Sprintf("%s.%s#guarded:%s.%d", kv["in"], kv["func"], name, n), Kind: "guarded", Goal: "true", Pre: "unsat", AutoSite: true,
 						Pos:  strings.TrimPrefix(p.Fset.Position(in.Pos()).String(), p.Repo+"/"),
 						Text: "guarded " + name + ": " + desc + " — " + strings.TrimSpace(d.Text[j+1:])}
-					if holds, missing := guardsHold(in, guards); !holds {
+					holds, missing := guardsHold(in, guards)
+					if ra := kv["require-any"]; ra != "" {
+						// `require-any=A && B || C`: on EVERY edge into the site's block one alternative (a conjunction of
+						// branch facts) must hold; this is how a short-circuit `a || b` guard is checked
+						holds, missing = true, ""
+						b := in.Block()
+						for _, pred := range b.Preds {
+							var facts []domFact
+							if len(pred.Instrs) > 0 {
+								facts = domFacts(pred.Instrs[len(pred.Instrs)-1])
+								if iff, ok := pred.Instrs[len(pred.Instrs)-1].(*ssa.If); ok && len(pred.Succs) == 2 && pred.Succs[0] != pred.Succs[1] {
+									facts = append(facts, domFact{cond: iff.Cond, neg: pred.Succs[1] == b})
+								}
+							}
+							okEdge := false
+							for _, alt := range strings.Split(ra, "||") {
+								all := true
+								for _, gd := range splitList(alt, "&&") {
+									one := false
+									for _, f := range facts {
+										if factMatches(f, gd) {
+											one = true
+										}
+									}
+									if !one {
+										all = false
+									}
+								}
+								if all {
+									okEdge = true
+								}
+							}
+							if !okEdge {
+								holds, missing = false, "any of ("+ra+") on the edge from block "+fmt.Sprint(pred.Index)
+							}
+						}
+					}
+					if !holds {
 						var have []string
 						for _, fct := range domFacts(in) {
 							if fct.cond != nil {
@@ -250,6 +292,104 @@ func runGuardedRules(p *Program, id string) ([]*Gen, []string) {
 		}
 		if n == 0 {
 			errs = append(errs, "contract-stale: guarded rule "+name+" matches no site")
+		}
+		gens = append(gens, g)
+	}
+	return gens, errs
+}
+
+// Paired hand-offs: a function (or closure) that hands a result to channel A must also contain the hand-off to
+// channel B that the receiver waits for (e.g. every path that reports a parse result also releases the waiter for
+// an injected file). Syntactic per function body: each body that has a `site` send must have a `with` send.
+//
+//	//@ paired NAME PROPS...: func=F ; in=pkg ; site=send PATTERN ; with=send PATTERN
+func runPairedRules(p *Program, id string) ([]*Gen, []string) {
+	var gens []*Gen
+	var errs []string
+	for _, d := range p.CS.Dirs {
+		if d.Kind != "paired" {
+			continue
+		}
+		j := strings.Index(d.Text, ":")
+		if j < 0 {
+			continue
+		}
+		head := strings.Fields(d.Text[:j])
+		if len(head) == 0 || !hasProp(head[1:], id) {
+			continue
+		}
+		name := head[0]
+		kv := map[string]string{}
+		for _, part := range strings.Split(d.Text[j+1:], ";") {
+			part = strings.TrimSpace(part)
+			if k := strings.Index(part, "="); k > 0 {
+				kv[strings.TrimSpace(part[:k])] = strings.TrimSpace(part[k+1:])
+			}
+		}
+		var sp *ssa.Package
+		for path, x := range p.Pkgs {
+			if x.Pkg.Name() == kv["in"] && strings.HasPrefix(path, modPath) {
+				sp = x
+			}
+		}
+		if sp == nil {
+			errs = append(errs, "contract-stale: paired "+name+": package not loaded")
+			continue
+		}
+		fn := p.LookupFunc(sp.Pkg.Path(), kv["func"])
+		if fn == nil {
+			errs = append(errs, "contract-stale: paired "+name+": function "+kv["func"]+" not found")
+			continue
+		}
+		sendMatches := func(in ssa.Instruction, pat string) bool {
+			f := strings.Fields(pat)
+			if len(f) != 2 || f[0] != "send" {
+				return false
+			}
+			s, ok := in.(*ssa.Send)
+			return ok && pathMatches(valuePath(s.Chan), f[1])
+		}
+		g := NewGen(p, nil, nil)
+		g.Label = "paired " + name
+		var fns []*ssa.Function
+		var collect func(f *ssa.Function)
+		collect = func(f *ssa.Function) {
+			fns = append(fns, f)
+			for _, a := range f.AnonFuncs {
+				collect(a)
+			}
+		}
+		collect(fn)
+		n := 0
+		for _, f := range fns {
+			var first ssa.Instruction
+			hasWith := false
+			for _, b := range f.Blocks {
+				for _, in := range b.Instrs {
+					if first == nil && sendMatches(in, kv["site"]) {
+						first = in
+					}
+					if sendMatches(in, kv["with"]) {
+						hasWith = true
+					}
+				}
+			}
+			if first == nil {
+				continue
+			}
+			n++
+			_, short := ContractName(f)
+			o := &Oblig{Name: fmt.Sprintf("%s.%s#paired:%s", kv["in"], short, name), Kind: "paired", Goal: "true", Pre: "unsat", AutoSite: true,
+				Pos:  strings.TrimPrefix(p.Fset.Position(first.Pos()).String(), p.Repo+"/"),
+				Text: "paired " + name + ": " + strings.TrimSpace(d.Text[j+1:])}
+			if !hasWith {
+				o.Pre = "sat"
+				o.Model = short + " sends on " + strings.Fields(kv["site"])[1] + " but never on " + strings.Fields(kv["with"])[1]
+			}
+			g.Obligs = append(g.Obligs, o)
+		}
+		if n == 0 {
+			errs = append(errs, "contract-stale: paired rule "+name+" matches no site")
 		}
 		gens = append(gens, g)
 	}
